@@ -125,7 +125,7 @@ var c17FixedNames = false
 func c17Run(n int, useStream bool, inGraph bool, withHandler bool, faults bool, sched bool) {
 	ctx := context.Background()
 	if sched {
-		vcfg("preempt", 2)
+		vcfg("preempt", 2+2*vtier())
 		vcfg("race", 1)
 	} else {
 		vcfg("fifo", 1)
